@@ -22,6 +22,17 @@ IMPORTS = "From DtlsV Require Import Lib.Bytes Crypto.C10Run."
 SITE_RX = "pkg/crypto/ciphersuite (receive direction)"
 SITE_HS = "internal/flight/flight12 handshake_messages (Finished verify_data, CertificateVerify, session hash)"
 
+SITE_KU = ("internal/handshake/post_handshake.go nextTrafficGeneration (DTLS 1.3 key update: "
+           "application_traffic_secret_N chain and the record keys of every epoch)")
+KU_MONITOR = "record of a key-updated epoch does not open under the keys of application_traffic_secret_N"
+KU_DELIVERY = "application data written after a key update is not delivered by the peer"
+KU_HOW = ("DTLS 1.3 handshake with the named suite (harness/overlay/root/zz_verif_c10_ku_test.go, variant = "
+          "suite/pattern/updates), then the calls listed in `script` (Conn.UpdateKeys / Conn.Write on a perfect "
+          "network, every call awaited); capture every datagram; derive application_traffic_secret_g = "
+          "HKDF-Expand-Label(application_traffic_secret_{g-1}, \"traffic upd\", \"\", Hash.length) from `secret_0`, "
+          "then key / iv / sn (RFC 8446 7.3, RFC 9147 4.2.3) and open `record` (unmask the sequence number, "
+          "nonce = iv xor seq, additional data = the unified header with the clear sequence number)")
+
 # (leg, package, test regexp, site reported for mismatches)
 HARNESSES = [
     # the first two legs start with the regression corpus (former failing inputs of the fixed defects
@@ -46,6 +57,10 @@ HARNESSES = [
     ("handshake12", ".", "^TestVerifC10Handshake12$", SITE_HS),
     # DTLS 1.3: SignatureScheme of CertificateVerify for P-256 / P-384 keys, key log lines of both sides
     ("handshake13", ".", "^TestVerifC10Handshake13$", SITE_HS),
+    # DTLS 1.3 key-update chains: live connections re-keyed 3..5 times (thorough: up to 40) per direction, every
+    # captured record of epochs 3, 4, 5, ... opened by a passive decoder that derives application_traffic_secret_n
+    # from secret 0 with its own HKDF; fn 57 / 58 compared with traffic_secret_n of Crypto/C10Hkdf.v
+    ("keyupdate13", ".", "^TestVerifC10KeyUpdate13$", SITE_KU),
     ("record13", "./internal/ciphersuite", "^TestVerifC10Record13$", "internal/ciphersuite/tls_13_record_protection.go"),
     # receive direction: records a conforming peer may send (explicit nonce != epoch||seq, extra padding, ...)
     ("receive12", "./internal/ciphersuite", "^TestVerifC10Receive12$", SITE_RX),
@@ -115,6 +130,8 @@ def key_of(c):
         return (c["fn"], c["hs"]["variant"], c["hs"].get("side", ""), c["hs"]["check"], c["hs"].get("label", ""))
     if c.get("rx"):
         return (c["fn"], c["rx"]["suite"], c["rx"]["record"])
+    if c.get("ku"):
+        return (c["fn"], c["ku"]["variant"], c["ku"]["direction"], c["ku"]["generation"], c["ku"]["check"])
     return (c["fn"], c["h"], tuple(c["in"]), tuple(c["n"]))
 
 
@@ -132,6 +149,29 @@ def monitor_rx(c):
     if rx["want"] == 0 and rx["got"] != 0:
         return ({"monitor": "forged record accepted", "suite": rx["family"], "control": rx.get("control", "")},
                 "%s: a record with one bit of `%s` changed is accepted" % (rx["suite"], rx.get("control", "")))
+    return None
+
+
+def monitor_ku(c):
+    """key-update predicate (the property's own): every record captured from a direction in epoch 3+g opens under
+    key / iv / sn of application_traffic_secret_g, g-fold "traffic upd" of secret 0, computed by the passive
+    decoder of the harness. Returns None or (signature, description)."""
+    ku = c.get("ku")
+    if not ku or ku.get("check") != "records":
+        return None
+    if ku["bad"]:
+        under = ku["opened_under"]
+        return ({"monitor": KU_MONITOR, "direction": ku["direction"]},
+                "%s: %s, records written by the %s in epoch %d (its key update number %d): %d of %d captured records "
+                "open under key/iv/sn of application_traffic_secret_%d derived from secret 0; the record in datagram "
+                "%d %s" % (KU_MONITOR, ku["variant"], ku["direction"], ku["epoch"], ku["generation"], ku["opened"],
+                           ku["records"], ku["generation"], ku["datagram"],
+                           ("opens under the keys of application_traffic_secret_%d instead" % under) if under >= 0
+                           else "opens under none of the generations 0..%d" % (ku["updates"] + 1)))
+    if not ku["delivered_to_peer"]:
+        return ({"monitor": KU_DELIVERY, "direction": ku["direction"]},
+                "%s: %s, the %s's Write under generation %d was not returned by the peer's Read" % (
+                    KU_DELIVERY, ku["variant"], ku["direction"], ku["generation"]))
     return None
 
 
@@ -278,6 +318,30 @@ def run(chk):
                                         "NewRecordProtection(in[0]) (DTLS 1.3) and call Decrypt / Open on rx.record",
                                  "rx": c["rx"], "case": c,
                                  "rerun": "VERIF_SEED=%d bin/check C10 --tier %s" % (chk.seed, chk.tier)})
+            mk = monitor_ku(c)
+            if mk:
+                rx_failed.add(idx)
+                sig, what = mk
+                if str(sig) not in mon_reported:
+                    mon_reported.add(str(sig))
+                    found_input = True
+                    ku = c["ku"]
+                    same = [x["ku"] for _, _, x in allc if x.get("ku") and x["ku"]["check"] == "records"
+                            and x["ku"]["direction"] == ku["direction"]]
+                    chk.finding(SITE_KU, sig, what,
+                                {"how": KU_HOW, "variant": ku["variant"], "suite": ku["suite"],
+                                 "direction": ku["direction"], "generation": ku["generation"], "epoch": ku["epoch"],
+                                 "script": ku["script"], "secret_0": ku["secret_0"],
+                                 "secret_0_source": ku["secret_0_source"], "record": ku.get("record"),
+                                 "datagram": ku["datagram"], "reference_keys_of_generation": ku.get("reference"),
+                                 "opens_under_generation": ku["opened_under"], "plaintext_then": ku.get("plaintext"),
+                                 "failing": sorted({"%s gen %d" % (x["variant"], x["generation"])
+                                                    for x in same if x["bad"]})[:40],
+                                 "passing_generations": sorted({x["generation"] for x in same if not x["bad"]}),
+                                 "case": c,
+                                 "correspondence": "Crypto.C10Run.case_ok (function code 57: generation_keys / "
+                                                   "traffic_secret_n of Crypto/C10Hkdf.v)",
+                                 "rerun": "VERIF_SEED=%d bin/check C10 --tier %s" % (chk.seed, chk.tier)})
             hs = c.get("hs")
             if hs and hs.get("cv_ok") is False and CV_MONITOR not in mon_reported:
                 mon_reported.add(CV_MONITOR)
@@ -372,6 +436,9 @@ def run(chk):
                     chk.finding(fsite, sig, what, extra)
                     continue
                 sig = signature_of(c)
+                if c.get("ku"):
+                    sig = {"monitor": "rfc-formula-mismatch", "function": c.get("tag", str(c["fn"])),
+                           "direction": c["ku"]["direction"]}
                 k = (c.get("site") or site, str(sig))
                 if k in reported:
                     continue
@@ -423,6 +490,11 @@ def run(chk):
              "ServerKeyExchange encoding (fn 16). Leg handshake13: DTLS 1.3 CertificateVerify scheme versus the "
              "curve of the key (fn 64) and the NSS key log labels of both sides (fn 18). Leg premaster-long: RFC 4279 "
              "premaster secret for keys of 0..2^16+4 bytes through a projection (fn 19). "
+             "Leg keyupdate13: live DTLS 1.3 connections (3 suites x alternate / update_requested / burst) re-keyed 5 "
+             "times per direction (thorough: up to 40); every captured record of every epoch 3+g must open under "
+             "key/iv/sn of application_traffic_secret_g derived from secret 0 by the harness' own HKDF (monitor), and "
+             "those values (fn 57) plus the TrafficGeneration.Secret of writer and reader (fn 58) are compared with "
+             "traffic_secret_n / generation_keys of the Coq model. "
              "Non-trivial = at least one non-empty output; distinct by (function, hash, inputs).",
         assumptions=["Go stdlib / x/crypto primitives (AES, GCM, ChaCha20-Poly1305, ECDH, ML-KEM) are outside /repo: "
                      "used as oracles for the primitive only; their inputs (key, nonce, AAD) are compared with the model",
